@@ -87,7 +87,12 @@ static void tlwe_round_trips(int k, const std::vector<long>& Ms, VhRng& rng, int
     TLweParams* par = new_TLweParams(N, k, 0., 1.);
     TLweKey* key = new_TLweKey(par); tLweKeyGen(key);
     TLweSample* c = new_TLweSample(par); TorusPolynomial* msg = new_TorusPolynomial(N); TorusPolynomial* dec = new_TorusPolynomial(N);
+    // three keys in the same key object / at recycled addresses: a fresh one, a re-generation in place, and a delete + new
+    for (int gen = 0; gen < 3; gen++) { size_t mi = 0;
+    if (gen == 1) tLweKeyGen(key);
+    if (gen == 2) { delete_TLweKey(key); key = new_TLweKey(par); tLweKeyGen(key); }
     for (long M : Ms) {
+        if (gen > 0 && (mi++ % 4) != (size_t)gen) continue;
         double alphas[3] = {1.0 / (20.0 * M), 1.0 / 33554432.0, 0.0};
         int cnt = M <= 8 ? (int)M : per;
         for (int q = 0; q < cnt; q++) for (int ai = 0; ai < 3; ai++) {
@@ -113,6 +118,7 @@ static void tlwe_round_trips(int k, const std::vector<long>& Ms, VhRng& rng, int
             VH_B; vh_s("k", "ttriv"); VH_C; vh_i("kk", k); VH_C; vh_i("M", M); VH_C; wl("mu", mus.data(), N); VH_C; wl("dec", ds.data(), N); VH_E;
         }
     }
+    }
     delete_TorusPolynomial(msg); delete_TorusPolynomial(dec); delete_TLweSample(c); delete_TLweKey(key); delete_TLweParams(par);
 }
 static void tgsw_round_trips(int k, int l, int bg, VhRng& rng, int per) {
@@ -120,9 +126,13 @@ static void tgsw_round_trips(int k, int l, int bg, VhRng& rng, int per) {
     TLweParams* tp = new_TLweParams(N, k, 0., 1.); TGswParams* gp = new_TGswParams(l, bg, tp);
     TGswKey* key = new_TGswKey(gp); tGswKeyGen(key);
     TGswSample* c = new_TGswSample(gp); IntPolynomial* msg = new_IntPolynomial(N); IntPolynomial* dec = new_IntPolynomial(N);
+    for (int gen = 0; gen < 3; gen++) {          // a fresh key, a re-generation in place, a delete + new
+    if (gen == 1) tGswKeyGen(key);
+    if (gen == 2) { delete_TGswKey(key); key = new_TGswKey(gp); tGswKeyGen(key); }
     for (int mb = 1; mb <= bg; mb++) {          // Msize = 2^mb <= Bg
         int M = 1 << mb;
         if (mb > 4 && mb != bg && mb != bg - 1) continue;
+        if (gen > 0 && mb != 1 + gen && mb != bg) continue;
         double alphas[2] = {1.0 / 67108864.0, 0.0};
         for (int q = 0; q < per; q++) for (int ai = 0; ai < 2; ai++) {
             int m = q < 3 ? q - 1 : (int)rng.below((uint32_t)M) - M / 2;       // -1, 0, 1, then small integers of either sign
@@ -137,6 +147,7 @@ static void tgsw_round_trips(int k, int l, int bg, VhRng& rng, int per) {
             tGswSymDecrypt(dec, c, key, M);
             VH_B; vh_s("k", "gencP"); VH_C; vh_i("kk", k); VH_C; vh_i("l", l); VH_C; vh_i("bg", bg); VH_C; vh_i("M", M); VH_C; vh_i("ai", ai); VH_C; il("m", msg->coefs, N); VH_C; il("dec", dec->coefs, N); VH_E;
         }
+    }
     }
     delete_IntPolynomial(msg); delete_IntPolynomial(dec); delete_TGswSample(c); delete_TGswKey(key); delete_TGswParams(gp); delete_TLweParams(tp);
 }
